@@ -198,11 +198,11 @@ def regridAfter (R : Rel) (a : AState) (req inInfo : Info) : Except Err (Info ×
   else if a.outputMask.isNone && req.mask.isNone then .error .metaErr
   else if a.inputMask.isNone && inInfo.mask.isNone then .error .metaErr
   else if gridsDiffer R a.outputGrid req.grid then .error .metaErr
-  -- `self.input_mask = self.input_mask or in_info.mask`: the truth value of a stored boolean array is a ValueError
-  else if isExplicit a.inputMask then .error .other
   else
+    -- `self.input_grid = in_info.grid or self.input_grid` (the delivered grid's layout is the layout of the data);
+    -- `if self.input_mask is None: self.input_mask = in_info.mask`
     let a1 : AState := { a with
-      inputGrid := pick a.inputGrid inInfo.grid,
+      inputGrid := pick inInfo.grid a.inputGrid,
       inputMask := pick a.inputMask inInfo.mask,
       outputGrid := pick a.outputGrid req.grid }
     -- in_info.copy_with(grid=self.output_grid, mask=self.output_mask): fresh Info, grid set, then the mask setter
